@@ -1,0 +1,94 @@
+//! Schedule-control points for the verification harness (built only with `--cfg pgcat_verif`).
+//!
+//! `point(name)` does nothing unless the harness armed the hooks.  When armed, the calling
+//! thread (the harness runs every actor on its own OS thread and names it with `set_actor`)
+//! parks at the point until the harness releases that actor, so that the harness can replay
+//! a chosen interleaving of the instrumented steps.
+use once_cell::sync::Lazy;
+use std::cell::Cell;
+use std::collections::HashMap;
+use std::sync::atomic::{AtomicBool, Ordering};
+use std::sync::{Condvar, Mutex};
+
+pub static ARMED: AtomicBool = AtomicBool::new(false);
+
+thread_local! {
+    static ACTOR: Cell<Option<u64>> = Cell::new(None);
+}
+
+#[derive(Default)]
+pub struct Gate {
+    /// actor -> point it is parked at
+    pub parked: HashMap<u64, &'static str>,
+    /// actor -> number of releases not yet consumed
+    pub tickets: HashMap<u64, u64>,
+    /// every arrival, in order
+    pub log: Vec<(u64, &'static str)>,
+}
+
+pub static GATE: Lazy<(Mutex<Gate>, Condvar)> = Lazy::new(|| (Mutex::new(Gate::default()), Condvar::new()));
+
+pub fn set_actor(id: u64) {
+    ACTOR.with(|a| a.set(Some(id)));
+}
+
+pub fn arm(on: bool) {
+    ARMED.store(on, Ordering::SeqCst);
+}
+
+/// Park the calling actor at `name` until the harness releases it.
+pub fn point(name: &'static str) {
+    if !ARMED.load(Ordering::SeqCst) {
+        return;
+    }
+    let id = match ACTOR.with(|a| a.get()) {
+        Some(id) => id,
+        None => return,
+    };
+    let (lock, cv) = &*GATE;
+    let mut g = lock.lock().unwrap();
+    g.parked.insert(id, name);
+    g.log.push((id, name));
+    cv.notify_all();
+    while g.tickets.get(&id).copied().unwrap_or(0) == 0 {
+        g = cv.wait(g).unwrap();
+    }
+    *g.tickets.get_mut(&id).unwrap() -= 1;
+    g.parked.remove(&id);
+    cv.notify_all();
+}
+
+/// Harness side: let `id` pass the point it is (or will next be) parked at.
+pub fn release(id: u64) {
+    let (lock, cv) = &*GATE;
+    let mut g = lock.lock().unwrap();
+    *g.tickets.entry(id).or_insert(0) += 1;
+    cv.notify_all();
+}
+
+/// Harness side: wait until `id` is parked (returns the point) or the timeout expires.
+pub fn wait_parked(id: u64, timeout_ms: u64) -> Option<&'static str> {
+    let (lock, cv) = &*GATE;
+    let deadline = std::time::Instant::now() + std::time::Duration::from_millis(timeout_ms);
+    let mut g = lock.lock().unwrap();
+    loop {
+        if let Some(p) = g.parked.get(&id) {
+            if g.tickets.get(&id).copied().unwrap_or(0) == 0 {
+                return Some(*p);
+            }
+        }
+        let now = std::time::Instant::now();
+        if now >= deadline {
+            return None;
+        }
+        let (ng, _) = cv.wait_timeout(g, deadline - now).unwrap();
+        g = ng;
+    }
+}
+
+pub fn reset() {
+    let (lock, cv) = &*GATE;
+    let mut g = lock.lock().unwrap();
+    *g = Gate::default();
+    cv.notify_all();
+}
